@@ -1157,11 +1157,21 @@ def pag_to_mag(graph):
 
     # construct the final MAG
 
+    # keep every node of the PAG, also the isolated ones
+    mag.add_nodes_from(graph.nodes)
+
     for u, v in copy_graph.directed_edges:
         mag.add_edge(u, v, mag.directed_edge_name)
 
     for u, v in temp_cpdag.directed_edges:
         mag.add_edge(u, v, mag.directed_edge_name)
+
+    # bidirected and undirected edges carry no circle mark: they are kept as they are
+    for u, v in copy_graph.bidirected_edges:
+        mag.add_edge(u, v, mag.bidirected_edge_name)
+
+    for u, v in copy_graph.undirected_edges:
+        mag.add_edge(u, v, mag.undirected_edge_name)
 
     return mag
 
